@@ -8,6 +8,7 @@ import json
 from lib.common import *
 from lib import edits
 from lib.progs import corpus
+from lib.oracle import reparse_diffs
 from props.C11 import stage_translate
 
 LEVEL = 'proof'
@@ -384,6 +385,79 @@ def stage_slice_sweep(ctx: Ctx):
                     break
 
 
+DOC_DONORS = ['def d():\n    """one line"""\n    return 1\n', 'def d():\n    """first\n    second\n      third\n    """\n    return 1\n', 'def d():\n    """summary \\\n    continued"""\n    return 1\n',
+              'def d():\n    "plain \\\n  odd \\\ncol0"\n', "class D:\n    '''cls \\\n    doc\n    '''\n    x = 1\n", 'def d():\n    r"""raw \\d\n    second"""\n', 'def d():\n    """a""" """b\n    c"""\n',
+              'def d():\n    """é \\\n    ü\n    ö"""\n    def inner():\n        """inner \\\n        doc"""\n', 'async def d():\n    """\n    lead\n    \\\n    tail"""\n',
+              'def d():\n    x = 1\n    """not a\n    docstring"""\n']
+DOC_HOSTS = [('pass\n', '', 'body'), ('if a:\n    pass\n', 'body[0]', 'body'), ('class K:\n    def m(self):\n        pass\n', 'body[0].body[0]', 'body'), ('if a:\n  if b:\n   if c:\n        pass\n', 'body[0].body[0].body[0]', 'body'),
+             ('try:\n\tpass\nfinally:\n\tpass\n', 'body[0]', 'finalbody')]
+RAW_SEMI_PROGS = [('if a:\n    x = 1\n    y = 2\n', 'body[0].body[1].value'), ('def f():\n    for i in j:\n        y = 2\nz = 3\n', 'body[0].body[0].body[0].value'),
+                  ('class K:\n    def m(self):\n        while q:\n            y = 2', 'body[0].body[0].body[0].body[0].value'), ('try:\n    y = 2\nexcept E:\n    w = 2\n', 'body[0].handlers[0].body[0].value'),
+                  ('with a:\n    y = 2  # c\n', 'body[0].body[0].value'), ('match v:\n    case 1:\n        y = 2\n', 'body[0].cases[0].body[0].value')]
+
+
+def stage_docstr_and_raw_tails(ctx: Ctx):
+    """deterministic: (a) functions / classes whose docstring spans lines in every way (plain, continuation inside the quotes, raw, implicit concatenation, nested, non-ASCII) put into
+    blocks at other indentation levels through append / insert / replace under every docstr option; (b) raw edits of the last statement of a block whose new text ends in blanks and a
+    semicolon (the enclosing blocks end behind it). All queries on all nodes vs a fresh tree."""
+    import fst
+    rng = ctx.rng
+    for donor in DOC_DONORS:
+        for hsrc, hpath, field in DOC_HOSTS:
+            for how in ('append', 'insert0', 'replace0', 'fst-append'):
+                for opts in ({}, {'docstr': False}, {'docstr': 'strict'}, {'docstr': True}):
+                    root = fst.FST(hsrc, 'exec')
+                    host = eval('root.' + hpath) if hpath else root
+                    for g in root.walk(True):
+                        for name in CACHED_QUERIES:
+                            q(g, name)
+                    code = fst.FST(donor, 'exec') if how == 'fst-append' else donor
+                    try:
+                        if how in ('append', 'fst-append'):
+                            host.put_slice(code, 'end', 'end', field, **opts)
+                        elif how == 'insert0':
+                            host.put_slice(code, 0, 0, field, **opts)
+                        else:
+                            host.put_slice(code, 0, 1, field, **opts)
+                    except Exception as e:
+                        ctx.tick(None, 'docstr-put:refused')
+                        continue
+                    ctx.tick(('docstr-put', donor, hsrc, how, repr(opts)), 'docstr-put:' + how)
+                    bad = compare_with_fresh(root, rng, 0)
+                    if bad:
+                        ctx.violation(f'query|{bad.get("query", bad["why"][:30])}|{bad.get("node", "")}|docstring-donor',
+                                      'a query on the edited tree answers differently from the same query on a tree freshly built from its source',
+                                      {'start_src': hsrc, 'how': f'{how} into {hpath or "module"}.{field}', 'code': donor, 'options': repr(opts), 'src_now': root.src, **bad})
+                        continue
+                    d = reparse_diffs(root)
+                    if d:
+                        ctx.violation('c01-after-docstring-put', 'after putting a function with a multi-line docstring the tree is not the parse of its source (values included)',
+                                      {'start_src': hsrc, 'how': f'{how} into {hpath or "module"}.{field}', 'code': donor, 'options': repr(opts), 'src_now': root.src, 'diffs': d[:5]})
+    for src, path in RAW_SEMI_PROGS:
+        for new in ('2 ;', '2;', '2  ;  ', '2 ; ', '(2) ;', '2 \\\n ;', '2 ; w = 3', '2 ;  # c'):
+            for via in ('replace-raw', 'put_src'):
+                root = fst.FST(src, 'exec')
+                node = eval('root.' + path)
+                for g in root.walk(True):
+                    for name in CACHED_QUERIES:
+                        q(g, name)
+                try:
+                    if via == 'replace-raw':
+                        node.replace(new, raw=True)
+                    else:
+                        ln, col, eln, ecol = node.loc
+                        root.put_src(new, ln, col, eln, ecol)
+                except Exception:
+                    ctx.tick(None, 'raw-tail:refused')
+                    continue
+                ctx.tick(('raw-tail', src, new, via), 'raw-tail:' + via)
+                bad = compare_with_fresh(root, rng, 0)
+                if bad:
+                    ctx.violation(f'query|{bad.get("query", bad["why"][:30])}|{bad.get("node", "")}|raw-statement-tail',
+                                  'a query on the edited tree answers differently from the same query on a tree freshly built from its source',
+                                  {'start_src': src, 'how': f'{via} of {path} with {new!r}', 'src_now': root.src, **bad})
+
+
 def stage_cache_corr(ctx: Ctx):
     """models/Cache.v vs the real loc cache on real nodes: ask / offset histories, answers must agree"""
     import fst
@@ -443,6 +517,7 @@ def run(ctx: Ctx):
     run_guarded(ctx, stage_oracle, progs)
     run_guarded(ctx, stage_accessor_caches, progs)
     run_guarded(ctx, stage_slice_sweep)
+    run_guarded(ctx, stage_docstr_and_raw_tails)
 
 
 def replay(path):
